@@ -131,7 +131,7 @@ Proof.
       set (t := firstn (N.to_nat l) (data x)) in *.
       assert (Hlt : len t = l) by (unfold t; rewrite len_firstn; lia).
       assert (Hl16 : (length t <= 16)%nat) by (unfold len in Hlt; lia).
-      apply wp_bind. eapply replace_inner_heap_wp; [rewrite Hh2; exact Hb|exact Hl|exact Hw|].
+      apply wp_bind. eapply replace_inner_heap_wp; [rewrite Hh2; exact Hb|exact Hl|exact Hw|lia|].
       intros m3 He3 Hh3 Hn3. unfold lift. apply wp_ret. apply HQ.
       assert (He13 : same_env m m3) by (eapply same_env_trans; [exact He2|exact He3]).
       assert (Hh13 : heap m3 = upd (heap m) b (released x)) by (rewrite Hh3, Hh2; reflexivity).
@@ -151,9 +151,9 @@ Proof.
         apply wp_ret. apply HQ.
         apply (shrink_post_noop m own b l x minc m);
           [exact HM|exact Hr0|exact Hc|exact Hb|apply same_env_refl|reflexivity|reflexivity|exact Hbig|exact Hnoop].
-      * apply wp_bind. eapply is_unique_wp; [exact Hb|exact Hl|]. intros m1 He1 Hh1 Hn1. unfold lift.
+      * apply wp_bind. eapply is_unique_wp; [exact Hb|exact Hl|lia|]. intros m1 u He1 Hh1 Hn1 Hu1 Huq. unfold lift.
         assert (Hb1 : nth_error (heap m1) b = Some x) by (rewrite Hh1; exact Hb).
-        destruct (N.eqb_spec (count x) 1) as [Hu|Hs].
+        destruct u; [assert (Hu : count x = 1) by (apply Hu1; reflexivity)|].
         -- (* unique: realloc in place *)
            apply wp_bind. eapply heap_realloc_wp; [exact Hb1|exact Hl|exact Hw| | |].
            ++ intros Hbig2. unfold lift. apply wp_ret. apply HQ.
@@ -208,7 +208,7 @@ Proof.
            ++ intros m3 He3 Hh3 Hn3 Hcap. unfold lift. rewrite Hlt.
               apply wp_bind. eapply replace_inner_heap_wp.
               { rewrite Hh3, Hh12. apply nth_error_app_l. exact Hb. }
-              { exact Hl. } { exact Hw. }
+              { exact Hl. } { exact Hw. } { lia. }
               intros m4 He4 Hh4 Hn4. unfold lift. apply wp_ret.
               rewrite Hh12.
               assert (G2 : same_env m m3) by (eapply same_env_trans; [exact He12|exact He3]).
@@ -237,7 +237,7 @@ Record clear_post (m : mem) (own : bufid -> N) (r : repr) (m' : mem) (r' : repr)
   cl_text : text_of m' r' = [];
   cl_nreq : nreq m' = nreq m;
   cl_static : is_static r = true -> r' = with_len r 0 /\ heap m' = heap m;
-  cl_excl : exclusive (heap m) r -> r' = with_len r 0 /\ heap m' = heap m;
+  cl_excl : xcl m r -> r' = with_len r 0 /\ heap m' = heap m;
 }.
 
 (* only the handle-local length is reset *)
@@ -274,13 +274,13 @@ Proof.
   - (* heap *)
     pose proof Hr as Hr0. destruct Hr as (x & Hb & Hl & Hlc & Hd & Hv).
     destruct (MI_lookup _ _ _ _ HM Hb Hl) as (Hw & Hcx & Hox).
-    cbn [is_unique]. apply wp_bind. eapply is_unique_wp; [exact Hb|exact Hl|]. intros m1 He1 Hh1 Hn1. unfold lift.
-    destruct (N.eqb_spec (count x) 1) as [Hu|Hs].
+    cbn [is_unique]. apply wp_bind. eapply is_unique_wp; [exact Hb|exact Hl|lia|]. intros m1 u He1 Hh1 Hn1 Hu1 Huq. unfold lift.
+    destruct u; [assert (Hu : count x = 1) by (apply Hu1; reflexivity)|].
     + (* unique: keep the buffer *)
       apply set_len_wp; [exact H0M|]. apply HQ.
       apply clear_post_local; [exact HM|exact Hr0|exact Hc|exact He1|exact Hh1|exact Hn1].
     + (* shared: drop the reference, become the empty inline string *)
-      eapply replace_inner_heap_wp; [rewrite Hh1; exact Hb|exact Hl|exact Hw|].
+      eapply replace_inner_heap_wp; [rewrite Hh1; exact Hb|exact Hl|exact Hw|lia|].
       intros m2 He2 Hh2 Hn2. apply HQ.
       assert (He12 : same_env m m2) by (eapply same_env_trans; [exact He1|exact He2]).
       assert (Hh12 : heap m2 = upd (heap m) b (released x)) by (rewrite Hh2, Hh1; reflexivity).
@@ -290,7 +290,8 @@ Proof.
       * apply shr_new_text.
       * lia.
       * cbn [is_static]. intros Hx. discriminate Hx.
-      * intros (y & Hy & _ & Hy1). rewrite Hb in Hy. injection Hy as <-. contradiction.
+      * intros (Hq & y & Hy & _ & Hy1). rewrite Hb in Hy. injection Hy as <-.
+        specialize (Huq Hq). rewrite Hy1 in Huq. discriminate.
   - (* static *)
     cbn [is_unique]. apply wp_bind. apply wp_ret. unfold lift.
     apply set_len_wp; [exact H0M|]. apply HQ.
